@@ -11,11 +11,22 @@
                                  client's cookie store (equal name: last wins) into one Cookie header;
                                  out = Cookie(n1),Cookie(n2),… (comma-joined hex)
     K line [line2] name          one or two raw Cookie header lines, Cookie(name)
+    L tok …                      cookies written at different moments of ONE response's life (Model/AccessLife A), tok =
+                                 sc:<name>:<v> SetCookie now | bf:<name>:<v> a function registered with
+                                 ResponseWriter().Before that calls SetCookie | wh:<code> | w | fl  (WriteHeader, Write,
+                                 Flush on c.ResponseWriter()); the Set-Cookie lines the client RECEIVED go through its
+                                 cookie store into the next request; out = Cookie(name) of every sc/bf, comma-joined
+    KS lines tok …               one request whose Cookie header changes between reads (Model/AccessLife B); lines = `.` or
+                                 comma-joined header lines; tok = r:<name> Cookie(name) | a:<name>:<v> Request.AddCookie
+                                 (value query-escaped) | s:<line> Header.Set | h:<line> Header.Add | d Header.Del;
+                                 out = the reads, comma-joined
+    QS rawquery tok …            the same for the query: tok = r:<name> Query(name) | s:<rawquery> URL.RawQuery = …
     RA xrealip xfwd remoteaddr   c.RemoteAddr() of a request carrying these header values (empty = header absent) and RemoteAddr
     BD body                      c.Request().Body().Bytes() and .String() of a request with this body (must agree)
   out: hex / integers / `err` / `nomatch`; floats as IEEE bits (answered by the oracle `E PF s bits`).
 -/
 import Flamego.Model.Access
+import Flamego.Model.AccessLife
 import Flamego.Driver.Common
 namespace Flamego.Driver.Access
 open Flamego.Access
@@ -55,6 +66,36 @@ def floatQuery : List String → Option Bytes
 
 def queries (lines : List (List String)) : List String :=
   lines.filterMap fun l => (floatQuery l).map fun v => s!"Q PF {v.toHex}"
+
+def lopOf (t : String) : Option AccessLife.LOp :=
+  match t.splitOn ":" with
+  | ["sc", n, v] => some (.setCookie (hexOf n) (hexOf v))
+  | ["bf", n, v] => some (.beforeSet (hexOf n) (hexOf v))
+  | ["wh", c] => some (.writer (.writeHeader (natOf c)))
+  | ["w"] => some (.writer (.write 1 1))
+  | ["fl"] => some (.writer .flush)
+  | _ => none
+
+def kopOf (t : String) : Option AccessLife.KOp :=
+  match t.splitOn ":" with
+  | ["r", n] => some (.read (hexOf n))
+  | ["a", n, v] => some (.addCookie (hexOf n) (hexOf v))
+  | ["s", l] => some (.setLine (hexOf l))
+  | ["h", l] => some (.addLine (hexOf l))
+  | ["d"] => some .del
+  | _ => none
+
+def qopOf (t : String) : Option AccessLife.QOp :=
+  match t.splitOn ":" with
+  | ["r", n] => some (.read (hexOf n))
+  | ["s", q] => some (.setRaw (hexOf q))
+  | _ => none
+
+def allSome {α : Type} (l : List (Option α)) : Option (List α) :=
+  if l.all Option.isSome then some (l.filterMap id) else none
+
+def showReads (l : List Bytes) : String :=
+  if l.isEmpty then "none" else joinWith "," (l.map Bytes.toHex)
 
 def runOp (o : Oracle) : List String → String
   | ["QE", s] => (queryEscape (hexOf s)).toHex
@@ -108,6 +149,18 @@ def runOp (o : Oracle) : List String → String
     if ws.isEmpty || rest.length % 2 != 0 then "bad-op" else
     let hdr := clientCookieHeader (setCookies ws)
     joinWith "," (ws.map fun w => (cookie [hdr] w.1).toHex)
+  | "L" :: toks =>
+    match allSome (toks.map lopOf) with
+    | none => "bad-op"
+    | some ops => showReads (AccessLife.readBack ops)
+  | "KS" :: ls :: toks =>
+    match allSome (toks.map kopOf) with
+    | none => "bad-op"
+    | some ops => showReads (AccessLife.kreads (if ls == "." then [] else (ls.splitOn ",").map hexOf) ops)
+  | "QS" :: rq :: toks =>
+    match allSome (toks.map qopOf) with
+    | none => "bad-op"
+    | some ops => showReads (AccessLife.qreads (hexOf rq) ops)
   | ["RA", x, f, r] => (remoteAddr (hexOf x) (hexOf f) (hexOf r)).toHex
   | ["BD", b] => (bodyBytes (hexOf b)).toHex
   | ["K", line, name] => (cookie [hexOf line] (hexOf name)).toHex
